@@ -404,6 +404,11 @@ PROPS["C19"]["harnesses"] += [
       bounds="unwind 10; all UTF-8 strings of <= 4 bytes"),
 ]
 
+# sequential harnesses over the connection: a compare-exchange that follows its load cannot fail, so the retry loops
+# get bound 2 (unwinding assertions stay on); in particular BumpAllocator::allocate then yields ONE pointer value
+# instead of a 7-way case split, which keeps every offset behind it concrete
+_CONN_UW = {"bump_allocator&8allocate": 2, "SharedManagementData12remove_state": 2,
+            "SharedManagementData12reserve_port": 2}
 PROPS["C13"] = {
     "bounds": "one connection name, buffer 1, max borrow 1, 1 chunk, 1 segment, 1 channel; every drop order; each single "
               "mismatching parameter; forced removal of either role before or after the survivor leaves",
@@ -412,21 +417,21 @@ PROPS["C13"] = {
                "flag (files, shm unlink) - the storage is KStorage, only the DynamicStorage contract is exercised",
     "assumptions": ["KStorage (in-memory DynamicStorage, engine/hk/src/cal/kstorage.rs) stands in for the real storages"],
     "harnesses": [
-        H("cal::conn::c13_second_attach_and_drop_order", features=CAL, covers=2, timeout=2400, mem_gb=26,
+        H("cal::conn::c13_second_attach_and_drop_order", features=CAL, unwindset=_CONN_UW, covers=2, timeout=2400, mem_gb=26,
           what="second attach of either role refused without disturbing; both drop orders: destroyed exactly once by "
                "the last detach, ownership acquired exactly once, never while a role is attached",
           bounds="unwind 6"),
-        H("cal::conn::c13_single_role_and_recreate", features=CAL, covers=0, timeout=2400, mem_gb=16,
+        H("cal::conn::c13_single_role_and_recreate", features=CAL, unwindset=_CONN_UW, covers=0, timeout=2400, mem_gb=16,
           what="a lone role destroys the resource on detach; the name is usable again", bounds="unwind 6"),
-        H("cal::conn::c13_mismatching_attach", features=CAL, covers=0, timeout=3000, mem_gb=26,
+        H("cal::conn::c13_mismatching_attach", features=CAL, unwindset=_CONN_UW, covers=0, timeout=3000, mem_gb=26,
           what="each single mismatching parameter is refused with its specific error, leaves the sender attached and "
                "the resource alive; a matching attach still works", bounds="unwind 6; 6 parameters"),
-        H("cal::conn::c13_attach_races_detach", features=CAL, covers=2, timeout=3000, mem_gb=26,
+        H("cal::conn::c13_attach_races_detach", features=CAL, unwindset=_CONN_UW, covers=2, timeout=3000, mem_gb=26,
           what="receiver attach racing the sender's detach at the two points where another process can act (after "
                "open / after port registration; hook in the storage model): refused as being cleaned up or attached "
                "to a live resource, never to a destroyed one; destroyed exactly once by the last one out, also when "
                "the last one out is a mismatching attacher", bounds="unwind 6; 2 race points x matching/mismatching"),
-        H("cal::conn::c13_forced_removal", features=CAL, covers=2, timeout=3000, mem_gb=26,
+        H("cal::conn::c13_forced_removal", features=CAL, unwindset=_CONN_UW, covers=2, timeout=3000, mem_gb=26,
           what="remove_sender/remove_receiver on behalf of a dead peer before or after the survivor leaves: destroyed "
                "exactly once, never under the survivor", bounds="unwind 6"),
     ],
@@ -434,29 +439,29 @@ PROPS["C13"] = {
 }
 
 _conn_data = [
-    H("cal::conn::conn_data_history_overflow", features=CAL, covers=2, timeout=3600, mem_gb=28,
+    H("cal::conn::conn_data_history_overflow", features=CAL, unwindset=_CONN_UW, covers=2, timeout=3600, mem_gb=28,
       what="sender->receiver connection with safe overflow: 4 symbolic try_send/receive/release/reclaim steps vs a model "
            "(submission FIFO, borrowed set, completion FIFO); order, at-most-once, eviction of the oldest, release never "
            "fails, borrow limit, used offsets after receiver exit", bounds="unwind 8; buffer 1, borrow 1, 4 chunks"),
-    H("cal::conn::conn_data_history_no_overflow", features=CAL, covers=2, timeout=3600, mem_gb=28,
+    H("cal::conn::conn_data_history_no_overflow", features=CAL, unwindset=_CONN_UW, covers=2, timeout=3600, mem_gb=28,
       what="same without overflow: full buffer refused with ReceiveBufferFull and no effect",
       bounds="unwind 8; buffer 1, borrow 1, 4 chunks"),
-    H("cal::conn::conn_data_history_overflow_deep", features=CAL, covers=2, timeout=10800, mem_gb=40, tiers=("thorough",),
+    H("cal::conn::conn_data_history_overflow_deep", features=CAL, unwindset=_CONN_UW, covers=2, timeout=10800, mem_gb=40, tiers=("thorough",),
       what="buffer 2, borrow 1, 6 steps, overflow", bounds="unwind 9"),
-    H("cal::conn::conn_data_history_no_overflow_deep", features=CAL, covers=2, timeout=10800, mem_gb=40,
+    H("cal::conn::conn_data_history_no_overflow_deep", features=CAL, unwindset=_CONN_UW, covers=2, timeout=10800, mem_gb=40,
       tiers=("thorough",), what="buffer 2, borrow 2, 6 steps, no overflow", bounds="unwind 9"),
 ]
 _conn_data += [
-    H("cal::conn::c11_channel_separation", features=CAL, covers=0, timeout=3600, mem_gb=40, tiers=("thorough",),
+    H("cal::conn::c11_channel_separation", features=CAL, unwindset=_CONN_UW, covers=0, timeout=3600, mem_gb=40, tiers=("thorough",),
       what="2-channel connection: samples, borrow counters and completion queues never cross channels",
       bounds="unwind 8; 2 channels, 1 sample each"),
-    H("cal::conn::conn_release_worst_case_1_1", features=CAL, covers=0, timeout=3600, mem_gb=28,
+    H("cal::conn::conn_release_worst_case_1_1", features=CAL, unwindset=_CONN_UW, covers=0, timeout=3600, mem_gb=28,
       what="directed worst case for the completion-queue sizing (buffer + max_borrow + 1 offsets in flight between "
            "two reclaim rounds of the sender): every release succeeds, every offset comes back once",
       bounds="unwind 8; buffer 1, borrow 1"),
-    H("cal::conn::conn_release_worst_case_2_1", features=CAL, covers=0, timeout=7200, mem_gb=36, tiers=("thorough",),
+    H("cal::conn::conn_release_worst_case_2_1", features=CAL, unwindset=_CONN_UW, covers=0, timeout=7200, mem_gb=36, tiers=("thorough",),
       what="same, buffer 2, borrow 1", bounds="unwind 8"),
-    H("cal::conn::conn_release_worst_case_1_2", features=CAL, covers=0, timeout=7200, mem_gb=36, tiers=("thorough",),
+    H("cal::conn::conn_release_worst_case_1_2", features=CAL, unwindset=_CONN_UW, covers=0, timeout=7200, mem_gb=36, tiers=("thorough",),
       what="same, buffer 1, borrow 2", bounds="unwind 8"),
 ]
 PROPS["C11"] = {
@@ -466,13 +471,16 @@ PROPS["C11"] = {
                "routing, response streams, limits on active requests",
     "assumptions": ["claim is about the channel mechanism in iceoryx2-cal only"],
     "harnesses": [
-        H("cal::conn::c11_channel_state_machine", features=CAL, covers=2, timeout=900, mem_gb=4,
+        H("cal::conn::c11_channel_state_machine", features=CAL, unwindset=_CONN_UW, covers=2, timeout=900, mem_gb=4,
           what="ZeroCopyPortDetails channel-state protocol (real provided methods): open only from CLOSED, close/hint "
                "only by the owning request, closed channel belongs to nobody, other channels untouched",
           bounds="all request ids <= 2^62, one symbolic operation from every reachable state"),
     ],
     "claimed": False,
 }
+# without preemption a compare-exchange that follows its load cannot fail: the retry loops of the bit set get their
+# own bound (the unwinding assertion of each loop stays on)
+_BITSET_SEQ = {"bit_set&7set_bit": 2, "bit_set&9clear_bit": 2}
 PROPS["C05"] = {
     "bounds": "bit sets: capacity 10 (crossing the 8-bit element), 4-5 symbolic operations; hand-shake: ids <= 3, 3 "
               "symbolic notify/try_wait/blocking_wait steps; schedule: listener preempted at every shared-memory "
@@ -482,10 +490,10 @@ PROPS["C05"] = {
     "assumptions": ["KTrig model trigger contract: notify increments a counter, waits consume it, blocking on 0 is "
                     "recorded as 'would block'"],
     "harnesses": [
-        H("c05::c05_bitset_history", covers=1, timeout=1500, mem_gb=6, tiers=("quick",),
+        H("c05::c05_bitset_history", covers=1, timeout=1500, mem_gb=6, tiers=("quick",), unwindset=_BITSET_SEQ,
           what="FixedSizeBitSet<10>: set/reset_next/reset_all history vs bit-mask model: nothing lost, no phantom",
           bounds="unwind 12; 3 steps + final drain"),
-        H("c05::c05_bitset_history_deep", covers=1, timeout=3600, mem_gb=10, tiers=("thorough",),
+        H("c05::c05_bitset_history_deep", covers=1, timeout=3600, mem_gb=10, tiers=("thorough",), unwindset=_BITSET_SEQ,
           what="same, 4 steps", bounds="unwind 12; 4 steps + final drain"),
         H("c05::c05_counting_bitset_history", covers=1, timeout=1500, mem_gb=6,
           what="FixedSizeCountingBitSet<3>: exact counts per id", bounds="unwind 8; 5 steps"),
@@ -502,10 +510,12 @@ PROPS["C05"] = {
                "shared-memory operations: no lost, no phantom, never more deliveries than notifications",
           bounds="unwind 12; ids {1,8,9}"),
         H("cal::c05ev::c05_ev_history", features=CAL, covers=2, timeout=5400, mem_gb=30, tiers=("thorough",),
+          unwindset={"bit_set&7set_bit": 2, "bit_set&9reset_all&.1": 2},
           what="real event hand-shake (Handle::notify / Waiter::drain_events) over KStorage + counting trigger: 3 symbolic "
                "notify/try_wait/blocking_wait steps; delivered == notified-and-undelivered; no sleep while pending",
           bounds="unwind 16; ids <= 3"),
         H("cal::c05ev::c05_ev_notify_races_wait", features=CAL, covers=2, timeout=7200, mem_gb=34, tiers=("thorough",),
+          unwindset={"bit_set&7set_bit": 2, "bit_set&9reset_all&.1": 2},
           what="a notification wakes the listener inside its wait call (or at the start of the drain) and a second one "
                "(id symbolic) completes while the collected ids are handed to the callback; the following wait delivers "
                "everything notified and never sleeps on a pending notification", bounds="unwind 16; ids <= 3, 2 waits"),
@@ -541,12 +551,12 @@ PROPS["C02"] = {
     "claimed": False,
 }
 PROPS["C02"]["harnesses"] += [
-    H("cal::conn::c02_used_chunk_list_history", features=CAL, covers=1, timeout=1500, mem_gb=6,
+    H("cal::conn::c02_used_chunk_list_history", features=CAL, unwindset=_CONN_UW, covers=1, timeout=1500, mem_gb=6,
       what="FixedSizeUsedChunkList<4>: insert/remove/remove_all history vs bit-mask model (what the sender gets back "
            "when a receiver vanishes)", bounds="unwind 8; 5 steps"),
 ]
 PROPS["C14"]["harnesses"] += [
-    H("cal::conn::c14_used_chunk_list_relocation", features=CAL, covers=1, timeout=1500, mem_gb=6,
+    H("cal::conn::c14_used_chunk_list_relocation", features=CAL, unwindset=_CONN_UW, covers=1, timeout=1500, mem_gb=6,
       what="FixedSizeUsedChunkList<3> byte-copied to a fresh block between two inserts", bounds="unwind 8"),
 ]
 PROPS["C08"] = {
@@ -565,12 +575,14 @@ PROPS["C08"] = {
 # the end-to-end connection data path (_conn_data) does not fit the solver (DESIGN.md section 12): it stays
 # registered under the unclaimed C01/C02 entries only, for reference and for `bin/check C01 --only ...` experiments
 PROPS["C03"]["harnesses"] += [
-    H("cal::conn::c02_used_chunk_list_history", features=CAL, covers=1, timeout=1500, mem_gb=6,
+    H("cal::conn::c02_used_chunk_list_history", features=CAL, unwindset=_CONN_UW, covers=1, timeout=1500, mem_gb=6,
       what="FixedSizeUsedChunkList<4>: insert/remove/remove_all history vs bit-mask model (the offsets a sender gets "
            "back when a receiver vanishes: each once, none invented)", bounds="unwind 8; 5 steps"),
 ]
 
 
+_C10_UW = {"9container&12update_state": 3, "RobustUniqueIndexSet28increment_generation_counter": 2,
+           "RobustUniqueIndexSet7acquire": 3, "bump_allocator&8allocate": 2}
 PROPS["C10"] = {
     "bounds": "capacity 2, 4 symbolic add/remove/recover operations without snapshots; capacity 1 snapshot refresh after "
               "add / remove / re-add",
@@ -585,7 +597,7 @@ PROPS["C10"] = {
         H("c10::c10_recover_dead_owner", covers=0, timeout=2400, mem_gb=10,
           what="recover(dead owner) visits and frees exactly the dead owner's entry; the live owner's entry is untouched",
           bounds="unwind 8; capacity 2, both insertion orders"),
-        H("c10::c10_state_refresh_cap1", covers=0, timeout=3600, mem_gb=30, tiers=("thorough",),
+        H("c10::c10_state_refresh_cap1", covers=0, timeout=3600, mem_gb=30, tiers=("thorough",), unwindset=_C10_UW,
           what="get_state/update_state on capacity 1: never ghost, exact data, every completed add/remove noticed by "
                "the next refresh, 'nothing changed' afterwards, slot reuse", bounds="unwind 6; capacity 1"),
     ],
